@@ -5,6 +5,7 @@
 //!   simcheck replay <file>
 //!   simcheck selftest-determinism [--seeds N]
 
+#![allow(dead_code)]
 mod gen;
 mod props;
 mod rng;
@@ -137,7 +138,15 @@ fn spawn_workers(prop_id: &str, seed: u64, from: u64, to: u64, jobs: u64, work: 
     for j in 0..jobs {
         let out = format!("{}/{}-{}-w{}.json", work, prop_id, tag, j);
         let _ = std::fs::remove_file(&out);
-        let mut c = Command::new(&exe);
+        // C18: workers run unprivileged (so that permission faults are real); see bin/check_c18
+        let wrap: Vec<String> = std::env::var("SIMCHECK_WORKER_WRAP").ok().map(|w| w.split_whitespace().map(|x| x.to_string()).collect()).unwrap_or_default();
+        let mut c = if wrap.is_empty() {
+            Command::new(&exe)
+        } else {
+            let mut c = Command::new(&wrap[0]);
+            c.args(&wrap[1..]).arg(&exe);
+            c
+        };
         c.arg("worker")
             .arg(prop_id)
             .args(["--seed", &seed.to_string()])
@@ -192,7 +201,7 @@ fn cmd_run(args: &Args) -> i32 {
     let runs = args.num("runs", if tier == "quick" { q } else { t });
     let deadline = args.num("deadline-secs", if tier == "quick" { 240 } else { 3000 });
     let root = verif_root();
-    let work = format!("{}/.work", root);
+    let work = std::env::var("SIMCHECK_WORK").unwrap_or_else(|_| format!("{}/.work", root));
     let _ = std::fs::create_dir_all(&work);
     let _ = std::fs::create_dir_all(format!("{}/evidence", root));
     let _ = std::fs::create_dir_all(format!("{}/replays", root));
@@ -483,7 +492,7 @@ fn cmd_replay(args: &Args) -> i32 {
 fn cmd_selftest(args: &Args) -> i32 {
     let n = args.num("seeds", 2000);
     let root = verif_root();
-    let work = format!("{}/.work", root);
+    let work = std::env::var("SIMCHECK_WORK").unwrap_or_else(|_| format!("{}/.work", root));
     let _ = std::fs::create_dir_all(&work);
     let seed = args.num("seed", 20261004);
     let mut all_ok = true;
@@ -529,7 +538,7 @@ fn cmd_selftest(args: &Args) -> i32 {
         detail.insert(id.to_string(), serde_json::json!({"runs_compared": compared, "diverged": diverged.len(), "first_diverged": diverged.first()}));
     }
     let out = serde_json::json!({"ok": all_ok, "seed": seed, "seeds_per_property": n, "worker_counts": [5, 3], "per_property": detail, "wall_s": start.elapsed().as_secs_f64()});
-    std::fs::write(format!("{}/determinism.json", work), serde_json::to_string_pretty(&out).unwrap()).expect("write determinism.json");
+    std::fs::write(format!("{}/.work/determinism.json", root), serde_json::to_string_pretty(&out).unwrap()).expect("write determinism.json");
     if all_ok {
         0
     } else {
